@@ -108,56 +108,62 @@ class EvolveAppTask(BaseEvolutionTask):
 
             register_global_custom_migrations(custom_migrations)
 
-        # We're going to let Django determine a plan for all migrations, and
-        # we'll determine a plan for evolutions. These will be combined into a
-        # dependency graph, which will produce the order in which we'll need
-        # to apply migrations and evolutions.
-        #
-        # First, run through the tasks, preparing state that we'll use to
-        # build the migrations and evolutions graph and resulting batches.
-        super(EvolveAppTask, cls).prepare_tasks(
-            evolver=evolver,
-            tasks=tasks,
-            hinted=hinted,
-            **kwargs)
+        try:
+            # We're going to let Django determine a plan for all migrations,
+            # and we'll determine a plan for evolutions. These will be
+            # combined into a dependency graph, which will produce the order
+            # in which we'll need to apply migrations and evolutions.
+            #
+            # First, run through the tasks, preparing state that we'll use to
+            # build the migrations and evolutions graph and resulting batches.
+            super(EvolveAppTask, cls).prepare_tasks(
+                evolver=evolver,
+                tasks=tasks,
+                hinted=hinted,
+                **kwargs)
 
-        # Now we can generate the remaining state needed to determine the
-        # order in which migrations and evolutions need to be applied. We'll
-        # compute the migration plans, build a graph from it, and then
-        # convert that into batches for execution.
-        migration_executor = cls._build_migration_executor(
-            evolver=evolver,
-            tasks=tasks)
-        migrations_info = cls._build_migrations_info(
-            evolver=evolver,
-            migration_executor=migration_executor,
-            tasks=tasks)
-        graph = cls._build_evolutions_graph(
-            evolver=evolver,
-            migration_executor=migration_executor,
-            migrations_info=migrations_info,
-            tasks=tasks)
-        batches = cls._build_batches(
-            evolver=evolver,
-            graph=graph,
-            hinted=hinted)
+            # Now we can generate the remaining state needed to determine
+            # the order in which migrations and evolutions need to be applied.
+            # We'll compute the migration plans, build a graph from it, and
+            # then convert that into batches for execution.
+            migration_executor = cls._build_migration_executor(
+                evolver=evolver,
+                tasks=tasks)
+            migrations_info = cls._build_migrations_info(
+                evolver=evolver,
+                migration_executor=migration_executor,
+                tasks=tasks)
+            graph = cls._build_evolutions_graph(
+                evolver=evolver,
+                migration_executor=migration_executor,
+                migrations_info=migrations_info,
+                tasks=tasks)
+            batches = cls._build_batches(
+                evolver=evolver,
+                graph=graph,
+                hinted=hinted)
 
-        # Set some state that execute_tasks() and unit tests can get to.
-        evolver._evolve_app_task_state = {
-            # These are used for the execution stage.
-            'batches': batches,
-            'full_migration_plan': migrations_info.get('full_plan'),
-            'migration_executor': migration_executor,
-            'pre_migrate_state': migrations_info.get('pre_migrate_state'),
+            # Set some state that execute_tasks() and unit tests can get to.
+            evolver._evolve_app_task_state = {
+                # These are used for the execution stage.
+                'batches': batches,
+                'full_migration_plan': migrations_info.get('full_plan'),
+                'migration_executor': migration_executor,
+                'pre_migrate_state':
+                    migrations_info.get('pre_migrate_state'),
 
-            # These are just stored for the benefit of unit tests.
-            'post_migration_plan': migrations_info.get('post_plan'),
-            'post_migration_targets': migrations_info.get('post_targets'),
-            'pre_migration_plan': migrations_info.get('pre_plan'),
-            'pre_migration_targets': migrations_info.get('pre_targets'),
-        }
-
-        clear_global_custom_migrations()
+                # These are just stored for the benefit of unit tests.
+                'post_migration_plan': migrations_info.get('post_plan'),
+                'post_migration_targets':
+                    migrations_info.get('post_targets'),
+                'pre_migration_plan': migrations_info.get('pre_plan'),
+                'pre_migration_targets': migrations_info.get('pre_targets'),
+            }
+        finally:
+            # Always unregister the custom migrations, so that a failure here
+            # doesn't prevent any later evolver (for this or another database)
+            # from being prepared.
+            clear_global_custom_migrations()
 
     @classmethod
     def execute_tasks(cls, evolver, tasks, **kwargs):
@@ -922,6 +928,13 @@ class EvolveAppTask(BaseEvolutionTask):
                     #
                     # There's not much we can do to share this logic between
                     # here and prepare().
+                    if batch_task.app_sig_is_new:
+                        # The app is being installed for the first time. Its
+                        # models are created in their final form, and its
+                        # whole evolution sequence is only being recorded.
+                        # None of it must be executed.
+                        continue
+
                     if batch_task._evolutions:
                         # Custom evolutions were passed to the task. Build the
                         # list of mutations for all evolutions in this task
